@@ -100,11 +100,53 @@ fn same(a: &Outcome, b: &Outcome) -> bool {
 }
 
 fn check_one(w: &mut W, acc: &mut Acc, t: &Term) {
+    let src = program(Dialect::Bare, t);
+    check_src(w, acc, src, t.interesting());
+}
+
+/// Every constant the compiler can embed in a module (ints, floats, bytes, chars, strings at
+/// their boundary values) x every position a constant is compiled from (top level, closure body,
+/// record field, array literal, argument, pattern literal, nested function, partial application)
+pub fn constant_programs() -> Vec<String> {
+    let head = "let { Bool } = import! std.types\ntype V = | A | C Int V\n";
+    let consts: Vec<(&str, &str)> = vec![
+        ("0", "Int"), ("1", "Int"), ("-1", "Int"), ("9223372036854775807", "Int"), ("-9223372036854775808", "Int"), ("255", "Int"), ("4294967296", "Int"),
+        ("0.0", "Float"), ("-0.0", "Float"), ("1.5", "Float"), ("-0.25", "Float"), ("-1.0", "Float"), ("1e300", "Float"), ("-1e300", "Float"),
+        ("0.1", "Float"), ("123456789.125", "Float"), ("5e-324", "Float"), ("123456789.123456789", "Float"), ("0.30000000000000004", "Float"),
+        ("1.7976931348623157e308", "Float"), ("2.2250738585072014e-308", "Float"), ("9007199254740993.0", "Float"), ("3.141592653589793", "Float"),
+        ("0b", "Byte"), ("1b", "Byte"), ("255b", "Byte"),
+        ("'a'", "Char"), ("'\\n'", "Char"), ("'\\''", "Char"), ("'é'", "Char"), ("'😀'", "Char"),
+        ("\"\"", "String"), ("\"a\"", "String"), ("\"a\\nb\"", "String"), ("\"\\\"q\\\\\"", "String"), ("\"é€😀\"", "String"),
+        ("r\"raw\\n\"", "String"), ("\"xxxxxxxxxxxxxxxxxxxxxxxxxxxxxxxxxxxxxxxxxxxxxxxxxxxxxxxxxxxxxxxxxxxxxxxxxxxxxxxxxxxxxxxxxxxxxxxxxxxxxxxxxxxxxxxxxxxxxxxxxxxxxxxxxxxxxxxxxxxxxxxxxxxxxxxxxxxxxxxxxxxxxxxxxxxxxxxxxxxxxxxxxxxxxxxxxxxxxxxxxxxxxxxxxxxxxxxxxxxxxxxxxxxxxxxxxxxxxxxxxxxxxxxxxxxxxxxxxx\"", "String"),
+    ];
+    let mut out = Vec::new();
+    for (c, ty) in &consts {
+        let positions = vec![
+            format!("{}", c),
+            format!("let f x = {}\nf ()", c),
+            format!("let f x = \\y -> {}\nf () ()", c),
+            format!("{{ a = {}, b = [{}, {}] }}", c, c, c),
+            format!("let id x = x\nid {}", c),
+            format!("let pair a b = (a, b)\nlet p = pair {}\np 1", c),
+            format!("rec let f n = if n #Int== 0 then {} else f (n #Int- 1)\nin f 3", c),
+            format!("match C 1 A with\n| C _ _ -> {}\n| A -> {}", c, c),
+        ];
+        for p in positions {
+            out.push(format!("{}{}\n// {}", head, p, ty));
+        }
+        // the constant as a pattern literal (not for floats: gluon has no float patterns)
+        if *ty != "Float" {
+            out.push(format!("{}let v = {}\nmatch v with\n| {} -> 1\n| _ -> 0\n", head, c, c));
+        }
+    }
+    out
+}
+
+fn check_src(w: &mut W, acc: &mut Acc, src: String, interesting: bool) {
     w.uses += 1;
     if w.uses % 1000 == 0 {
         w.vm = vmkit::make_vm_with_prim(settings());
     }
-    let src = program(Dialect::Bare, t);
     let from_source = vmkit::run(&w.vm, "main", &src);
     if matches!(from_source, Outcome::Err(ErrKind::Typecheck, _) | Outcome::Err(ErrKind::Parse, _) | Outcome::Err(ErrKind::HostPanic, _)) {
         acc.skipped += 1;
@@ -140,7 +182,7 @@ fn check_one(w: &mut W, acc: &mut Acc, t: &Term) {
         }
     }
     acc.evaluated += 1;
-    if t.interesting() {
+    if interesting {
         acc.nontrivial += 1;
     }
     *acc.classes.entry(fresh_vm.class()).or_insert(0) += 1;
@@ -315,6 +357,31 @@ pub fn run(tier: &str) -> Report {
             report.violation(k, w, r);
         }
     }
+    // (1b) constants of every kind in every position
+    let consts = constant_programs();
+    let consts_ref = &consts;
+    let sweep = par::sweep(
+        consts.len(),
+        8,
+        Some(deadline),
+        |_| W { vm: vmkit::make_vm_with_prim(settings()), uses: 0 },
+        |w, acc: &mut Acc, i| check_src(w, acc, consts_ref[i].clone(), true),
+    );
+    capped |= sweep.capped;
+    for a in sweep.results {
+        evaluated += a.evaluated;
+        nontrivial += a.nontrivial;
+        skipped += a.skipped;
+        bytes += a.bytes;
+        for (k, v) in a.classes {
+            *classes.entry(k).or_insert(0) += v;
+        }
+        for (k, w, r) in a.violations {
+            report.violation(k, w, r);
+        }
+    }
+    report.set("roundtrip.constant_programs", consts.len() as u64);
+    report.assume("the bytecode is written and read with serde_json with its `float_roundtrip` feature on: without it serde_json itself reads some float constants back one ULP off (123456789.123456789), which is serde_json's documented trade-off, not gluon's");
     report.set("roundtrip.programs", evaluated);
     report.set("roundtrip.executions", evaluated * 3);
     report.set("roundtrip.skipped_not_accepted", skipped);
